@@ -163,14 +163,16 @@ class Run:
                 bad.append(("cache-accounting", "memory_usage %d but resident entries account for %d" % (usage, acc)))
             if usage > c.memory_cache_bytes:
                 bad.append(("cache-over-budget", "memory_usage %d > budget %d" % (usage, c.memory_cache_bytes)))
+            if sorted(c.lru_deque) != sorted(c.cache):
+                bad.append(("cache-lru-list", "the LRU list %r does not list every resident entry %r exactly once (a sequential execution leaves it so)" % (list(c.lru_deque), sorted(c.cache))))
             # what a sequential execution leaves: forgetting everything returns the counter to zero
             for s in self.specs:
                 try:
                     fnmod.n0.forget(s)
                 except Exception as e:
                     bad.append(("forget-failed", "%s" % e))
-            if c.memory_usage != 0 or len(c.cache) != 0:
-                bad.append(("cache-accounting-after-forget", "after forgetting every call memory_usage=%d resident=%d" % (c.memory_usage, len(c.cache))))
+            if c.memory_usage != 0 or len(c.cache) != 0 or len(c.lru_deque) != 0:
+                bad.append(("cache-accounting-after-forget", "after forgetting every call memory_usage=%d resident=%d lru=%d" % (c.memory_usage, len(c.cache), len(c.lru_deque))))
         return bad
 
 
@@ -238,7 +240,8 @@ def run(tier, seed):
             plan = [("cold-same", 2, 70, 0, False), ("warmstore-coldcache-same", 2, 50, 0, False), ("cold-diff-tightcache", 1, 30, 0, False),
                     ("warmcache-same", 1, 10, 0, False), ("warmstore-coldcache-same", 0, 0, 25, True), ("cold-diff-tightcache", 0, 0, 15, True),
                     ("cold-same", 2, 320, 0, "mutex"), ("cold-equal-results-3-nocache", 2, 250, 0, "links"),
-                    ("cold-diff-3-memstore", 1, 400, 0, "memstore"), ("cold-diff-nested-auto", 1, 300, 0, "deps")]
+                    ("cold-diff-3-memstore", 1, 400, 0, "memstore"), ("cold-diff-nested-auto", 1, 300, 0, "deps"),
+                    ("warmstore-coldcache-same", 1, 260, 0, True)]
             if not gate["ok"]:      # search mode: an obligation is broken, look harder for a failing schedule
                 plan = [(n, b + 1, r * 4, rr * 4, lm) for (n, b, r, rr, lm) in plan]
         else:
